@@ -62,6 +62,7 @@ MYTH_CTX_CALLBACK void myth_block_on_queue_cb(void *arg1,void *arg2,void *arg3) 
   myth_sleep_queue_t * q = arg1;
   myth_thread_t cur = arg2;
   myth_mutex_t * m = arg3;
+  MYTH_VERIF_EV2("CbEnter", 8, ((long)__builtin_frame_address(0) & 15));
   /* put the current thread to the sleep
      queue here.  it is important not to have
      done this until this point (i.e., after
@@ -74,9 +75,11 @@ MYTH_CTX_CALLBACK void myth_block_on_queue_cb(void *arg1,void *arg2,void *arg3) 
      cur data structure before the context
      has been saved  */
   myth_sleep_queue_enq_th(q, cur);
+  MYTH_VERIF_POINT(40);
   if (m) {
     myth_mutex_unlock_body(m);
   }
+  MYTH_VERIF_EV0("CbExit");
 }
 
 /* block the current thread on sleep_queue q */
@@ -85,6 +88,7 @@ static inline void myth_block_on_queue(myth_sleep_queue_t * q,
   myth_running_env_t env = myth_get_current_env();
   myth_thread_t cur = env->this_thread;
   /* pop next thread to run */
+  MYTH_VERIF_EV3("Block", VD(cur), VSQ(q), VMX(m));
   myth_thread_t next = myth_queue_pop(&env->runnable_q);
   /* next context to run. either another thread
      or the scheduler */
@@ -109,6 +113,7 @@ MYTH_CTX_CALLBACK void myth_block_on_stack_cb(void *arg1,void *arg2,void *arg3) 
   myth_sleep_stack_t * s = arg1;
   myth_thread_t cur = arg2;
   myth_mutex_t * m = arg3;
+  MYTH_VERIF_EV2("CbEnter", 9, ((long)__builtin_frame_address(0) & 15));
   /* put the current thread to the sleep
      queue here.  it is important not to have
      done this until this point (i.e., after
@@ -121,9 +126,11 @@ MYTH_CTX_CALLBACK void myth_block_on_stack_cb(void *arg1,void *arg2,void *arg3) 
      cur data structure before the context
      has been saved  */
   myth_sleep_stack_push_th(s, cur);
+  MYTH_VERIF_POINT(40);
   if (m) {
     myth_mutex_unlock_body(m);
   }
+  MYTH_VERIF_EV0("CbExit");
 }
 
 
@@ -133,6 +140,7 @@ static inline void myth_block_on_stack(myth_sleep_stack_t * s,
   myth_running_env_t env = myth_get_current_env();
   myth_thread_t cur = env->this_thread;
   /* pop next thread to run */
+  MYTH_VERIF_EV3("Block", VD(cur), VSQ(s), VMX(m));
   myth_thread_t next = myth_queue_pop(&env->runnable_q);
   /* next context to run. either another thread
      or the scheduler */
@@ -189,9 +197,11 @@ static inline int myth_wake_one_from_queue(myth_sleep_queue_t * q,
   myth_thread_t to_wake = 0;
   int failed = 0;
   while (1) {
+    MYTH_VERIF_POINT(42);
     to_wake = myth_sleep_queue_deq_th(q);
     if (to_wake) break;
     failed++;
+    MYTH_VERIF_SPIN(41);
     empty_loop(100);
   }
   /* wake up this guy */
@@ -206,6 +216,7 @@ static inline int myth_wake_one_from_queue(myth_sleep_queue_t * q,
      after putting it in the run queue will allow
      the to_wake to run (by another worker), observe
      the lock bit still set, and sleep again. */
+  MYTH_VERIF_POINT(43);
   if (callback) {
     callback(arg);
   }
@@ -261,7 +272,9 @@ static inline int myth_wake_many_from_queue(myth_sleep_queue_t * q,
   for (i = 0; i < n; i++) {
     myth_thread_t to_wake = 0;
     while (!to_wake) {
+      MYTH_VERIF_POINT(42);
       to_wake = myth_sleep_queue_deq_th(q);
+      if (!to_wake) MYTH_VERIF_SPIN(44);
     }
     to_wake->env = env;
     to_wake->next = 0;
@@ -303,6 +316,7 @@ static inline int myth_wake_if_any_from_queue(myth_sleep_queue_t * q,
 					      callback_on_wakeup_t callback,
 					      void * arg) {
   myth_running_env_t env = myth_get_current_env();
+  MYTH_VERIF_POINT(42);
   myth_thread_t to_wake = myth_sleep_queue_deq_th(q);
   /* no threads sleeping, done */
   if (!to_wake) return 0;	/* I did not wake up any */
@@ -375,7 +389,9 @@ static inline int myth_wake_many_from_stack(myth_sleep_stack_t * s,
   for (i = 0; i < n; i++) {
     myth_thread_t to_wake = 0;
     while (!to_wake) {
+      MYTH_VERIF_POINT(42);
       to_wake = myth_sleep_stack_pop_th(s);
+      if (!to_wake) MYTH_VERIF_SPIN(45);
     }
     to_wake->env = env;
     to_wake->next = 0;
@@ -419,24 +435,35 @@ static inline int myth_once_try_set(myth_once_t * once_control,
 
 static inline int myth_once_wait_until(myth_once_t * once_control,
 				       int state) {
+  MYTH_VERIF_POINT(60);
   int s = once_control->state;
+  MYTH_VERIF_EV2("OnLd", VON(once_control), s);
   while (s != state) {
     myth_yield();
+    MYTH_VERIF_POINT(60);
     s = once_control->state;
+    MYTH_VERIF_EV2("OnLd", VON(once_control), s);
   }
   return 0;
 }
 
 static inline int
 myth_once_body(myth_once_t * once_control, void (*init_routine)(void)) {
+  MYTH_VERIF_POINT(60);
   int s = once_control->state;
+  MYTH_VERIF_EV2("OnLd", VON(once_control), s);
+  MYTH_VERIF_POINT(61);
   if (s == myth_once_state_init) {
    if (myth_once_try_set(once_control, myth_once_state_init,
 			 myth_once_state_in_progress)) {
+     MYTH_VERIF_EV2("OnCas", VON(once_control), 1);
      init_routine();
+     MYTH_VERIF_POINT(62);
+     MYTH_VERIF_EV1("OnDone", VON(once_control));
      once_control->state = myth_once_state_completed;
      return 0;
    }
+   MYTH_VERIF_EV2("OnCas", VON(once_control), 0);
   }
   myth_once_wait_until(once_control, myth_once_state_completed);
   return 0;
@@ -471,15 +498,20 @@ static inline int myth_mutex_destroy_body(myth_mutex_t * mutex)
 static inline int myth_mutex_trylock_body(myth_mutex_t * mutex) {
   /* TODO: spin block */
   while (1) {
+    MYTH_VERIF_POINT(50);
     long s = mutex->state;
+    MYTH_VERIF_EV3("MxLd", VMX(mutex), s, 1);
+    MYTH_VERIF_POINT(51);
     /* check the lock bit */
     if (s & 1) {
       /* lock bit set. do nothing and go home */
       return EBUSY;
     } else if (__sync_bool_compare_and_swap(&mutex->state, s, s + 1)) {
       /* I set the lock bit */
+      MYTH_VERIF_EV4("MxCas", VMX(mutex), s, s + 1, 1);
       return 0;
     } else {
+      MYTH_VERIF_EV4("MxCas", VMX(mutex), s, s + 1, 0);
       continue;
     }
   }
@@ -521,17 +553,22 @@ static inline int myth_mutex_lock_body(myth_mutex_t * mutex) {
   /* TODO: spin block */
   int failed = 0;
   while (1) {
+    MYTH_VERIF_POINT(50);
     long s = mutex->state;
+    MYTH_VERIF_EV3("MxLd", VMX(mutex), s, 0);
+    MYTH_VERIF_POINT(51);
     assert(s >= 0);
     /* check lock bit */
     if ((s & 1) == 0) {
       /* lock bit clear -> try to become the one who set it */
       if (__sync_bool_compare_and_swap(&mutex->state, s, s + 1)) {
+	MYTH_VERIF_EV4("MxCas", VMX(mutex), s, s + 1, 1);
 	break;
       } else {
         //struct timespec req[1] = { { ns / 1000000000, ns % 1000000000 } };
         //nanosleep(req, 0);
         //ns += ns;
+        MYTH_VERIF_EV4("MxCas", VMX(mutex), s, s + 1, 0);
         failed++;
       }
     } else {
@@ -542,8 +579,10 @@ static inline int myth_mutex_lock_body(myth_mutex_t * mutex) {
 	   unlocked by another thread right after the above cas, 
 	   he will learn I am going to be in the queue soon, so should
 	   wake me up */
+	MYTH_VERIF_EV4("MxCas", VMX(mutex), s, s + 2, 1);
 	myth_block_on_queue(mutex->sleep_q, 0);
       }
+      else { MYTH_VERIF_EV4("MxCas", VMX(mutex), s, s + 2, 0); }
       failed++;
     }
   }
@@ -582,6 +621,7 @@ myth_mutex_timedlock_body(myth_mutex_t * mutex,
 static void * myth_mutex_clear_lock_bit(void * mutex_) {
   myth_mutex_t * mutex = mutex_;
   assert(mutex->state & 1);
+  MYTH_VERIF_EV1("MxClr", VMX(mutex));
   __sync_fetch_and_sub(&mutex->state, 1);
   return 0;
 }
@@ -590,7 +630,10 @@ static void * myth_mutex_clear_lock_bit(void * mutex_) {
 static inline int myth_mutex_unlock_body(myth_mutex_t * mutex) {
   int failed = 0;
   while (1) {
+    MYTH_VERIF_POINT(50);
     long s = mutex->state;
+    MYTH_VERIF_EV3("MxLd", VMX(mutex), s, 2);
+    MYTH_VERIF_POINT(51);
     /* the mutex must be locked now (by me). 
        TODO: a better diagnosis message */
     if (!(s & 1)) {
@@ -606,18 +649,23 @@ static inline int myth_mutex_unlock_body(myth_mutex_t * mutex) {
 	 on the queue. decrement it (while still keeping the lock bit)
 	 wake up one, and then clear the lock bit */
       if (__sync_bool_compare_and_swap(&mutex->state, s, s - 2)) {
+	MYTH_VERIF_EV4("MxCas", VMX(mutex), s, s - 2, 1);
+	MYTH_VERIF_EV2("MxWake", VMX(mutex), VSQ(mutex->sleep_q));
 	failed += myth_wake_one_from_queue(mutex->sleep_q, 
                                            myth_mutex_clear_lock_bit, mutex);
 	break;
       } else {
+        MYTH_VERIF_EV4("MxCas", VMX(mutex), s, s - 2, 0);
         failed++;
       }
     } else {
       /* nobody waiting. clear the lock bit and done */
       assert(s == 1);
       if (__sync_bool_compare_and_swap(&mutex->state, 1, 0)) {
+	MYTH_VERIF_EV4("MxCas", VMX(mutex), 1, 0, 1);
 	break;
       } else {
+        MYTH_VERIF_EV4("MxCas", VMX(mutex), 1, 0, 0);
         failed++;
       }
     }
@@ -785,16 +833,19 @@ static inline int myth_cond_destroy_body(myth_cond_t * cond) {
 }
 
 static inline int myth_cond_broadcast_body(myth_cond_t * cond) {
+  MYTH_VERIF_EV3("CvSignal", VCV(cond), VSQ(cond->sleep_q), 1);
   myth_wake_all_from_queue(cond->sleep_q, 0, 0);
   return 0;
 }
 
 static inline int myth_cond_signal_body(myth_cond_t * cond) {
+  MYTH_VERIF_EV3("CvSignal", VCV(cond), VSQ(cond->sleep_q), 0);
   myth_wake_if_any_from_queue(cond->sleep_q, 0, 0);
   return 0;
 }
 
 static inline int myth_cond_wait_body(myth_cond_t * cond, myth_mutex_t * mutex) {
+  MYTH_VERIF_EV3("CvWait", VCV(cond), VSQ(cond->sleep_q), VMX(mutex));
   myth_block_on_queue(cond->sleep_q, mutex);
   return myth_mutex_lock(mutex);
 }
@@ -851,7 +902,9 @@ static inline int myth_barrier_destroy_body(myth_barrier_t * barrier) {
 
 static inline int myth_barrier_wait_body(myth_barrier_t * barrier) {
   while (1) {
+    MYTH_VERIF_POINT(70);
     long c = barrier->state;
+    MYTH_VERIF_EV3("BrLd", VBR(barrier), c, barrier->n_threads);
     if (c >= barrier->n_threads) {
       /* TODO: set errno and return */
       fprintf(stderr, 
@@ -859,14 +912,20 @@ static inline int myth_barrier_wait_body(myth_barrier_t * barrier) {
 	      barrier->n_threads);
       exit(1);
     }
+    MYTH_VERIF_POINT(71);
     if (! __sync_bool_compare_and_swap(&barrier->state, c, c + 1)) {
+      MYTH_VERIF_EV3("BrCas", VBR(barrier), c, 0);
       continue;
     }
+    MYTH_VERIF_EV3("BrCas", VBR(barrier), c, 1);
     if (c == barrier->n_threads - 1) {
       /* I am the last one. wake up all guys.
 	 TODO: spin block */
+      MYTH_VERIF_POINT(72);
+      MYTH_VERIF_EV1("BrReset", VBR(barrier));
       barrier->state = 0;	/* reset state */
       //myth_wake_many_from_queue(barrier->sleep_q, 0, 0, c);
+      MYTH_VERIF_EV3("BrWake", VBR(barrier), VSQ(barrier->sleep_s), c);
       myth_wake_many_from_stack(barrier->sleep_s, 0, 0, c);
       return MYTH_BARRIER_SERIAL_THREAD;
     } else {
@@ -918,6 +977,7 @@ myth_join_counter_init_body(myth_join_counter_t * jc,
   assert((n_threads & mask) == n_threads);
   /* number of waiters|number of decrements so far */
   jc->state = 0;
+  MYTH_VERIF_EV4("JcInit", VJC(jc), n_threads, b, mask);
   if (attr) {
     jc->attr = *attr;
   } else {
@@ -928,17 +988,22 @@ myth_join_counter_init_body(myth_join_counter_t * jc,
 
 static inline int myth_join_counter_wait_body(myth_join_counter_t * jc) {
   while (1) {
+    MYTH_VERIF_POINT(73);
     long s = jc->state;
+    MYTH_VERIF_EV5("JcLd", VJC(jc), s, 0, jc->n_threads, jc->n_threads_bits);
     if ((s & jc->state_mask) == jc->n_threads) {
       return 0;
     }
     /* try to indicate I am going to sleep. */
+    MYTH_VERIF_POINT(74);
     long new_s = s + (1L << jc->n_threads_bits);
     if (! __sync_bool_compare_and_swap(&jc->state, s, new_s)) {
       /* another thread may have just decrement it, so I may
 	 have to keep going */
+      MYTH_VERIF_EV4("JcCas", VJC(jc), s, new_s, 0);
       continue;
     }
+    MYTH_VERIF_EV4("JcCas", VJC(jc), s, new_s, 1);
     myth_block_on_queue(jc->sleep_q, 0);
     assert((jc->state & jc->state_mask) == jc->n_threads);
   }
@@ -946,7 +1011,9 @@ static inline int myth_join_counter_wait_body(myth_join_counter_t * jc) {
 
 static inline int myth_join_counter_dec_body(myth_join_counter_t * jc) {
   while (1) {
+    MYTH_VERIF_POINT(73);
     long s = jc->state;
+    MYTH_VERIF_EV5("JcLd", VJC(jc), s, 1, jc->n_threads, jc->n_threads_bits);
     long n_decs = s & jc->state_mask;
     if (n_decs >= jc->n_threads) {
       /* TODO: set errno and return */
@@ -956,13 +1023,17 @@ static inline int myth_join_counter_dec_body(myth_join_counter_t * jc) {
       exit(1);
     }
     assert(((s + 1) & jc->state_mask) == (n_decs + 1));
+    MYTH_VERIF_POINT(74);
     if (!__sync_bool_compare_and_swap(&jc->state, s, s + 1)) {
+      MYTH_VERIF_EV4("JcCas", VJC(jc), s, s + 1, 0);
       continue;
     }
+    MYTH_VERIF_EV4("JcCas", VJC(jc), s, s + 1, 1);
     if (n_decs == jc->n_threads - 1) {
       /* I am the last one. wake up all guys.
 	 TODO: spin block */
       long n_threads_to_wake = (s >> jc->n_threads_bits);
+      MYTH_VERIF_EV3("JcWake", VJC(jc), VSQ(jc->sleep_q), n_threads_to_wake);
       myth_wake_many_from_queue(jc->sleep_q, 0, 0, n_threads_to_wake);
     }
     break;
@@ -1014,14 +1085,17 @@ static inline int myth_felock_unlock_body(myth_felock_t * fe) {
 static inline int myth_felock_wait_and_lock_body(myth_felock_t * fe, 
 						 int status_to_wait) {
   myth_mutex_lock_body(fe->mutex);
+  MYTH_VERIF_EV3("FeChk", VFE(fe), fe->status, status_to_wait);
   while (fe->status != status_to_wait) {
     myth_cond_wait(&fe->cond[status_to_wait], fe->mutex);
+    MYTH_VERIF_EV3("FeChk", VFE(fe), fe->status, status_to_wait);
   }
   return 0;
 }
 
 static inline int myth_felock_mark_and_signal_body(myth_felock_t * fe,
 						   int status_to_signal) {
+  MYTH_VERIF_EV2("FeMark", VFE(fe), status_to_signal);
   fe->status = status_to_signal;
   myth_cond_signal(&fe->cond[status_to_signal]);
   return myth_mutex_unlock_body(fe->mutex);
@@ -1058,13 +1132,17 @@ MYTH_CTX_CALLBACK
 void myth_uncond_wait_cb(void *arg1,void *arg2,void *arg3) {
   myth_uncond_t * u = arg1;
   myth_thread_t cur = arg2;
+  MYTH_VERIF_EV2("CbEnter", 10, ((long)__builtin_frame_address(0) & 15));
+  MYTH_VERIF_EV2("UcPub", VUC(u), VD(cur));
   u->th = cur;
+  MYTH_VERIF_EV0("CbExit");
 }
 
 static inline int myth_uncond_wait_body(myth_uncond_t * u) {
   myth_running_env_t env = myth_get_current_env();
   myth_thread_t cur = env->this_thread;
   /* pop next thread to run */
+  MYTH_VERIF_EV3("Block", VD(cur), 0, -VUC(u));
   myth_thread_t next = myth_queue_pop(&env->runnable_q);
   /* next context to run. either another thread
      or the scheduler */
@@ -1087,11 +1165,17 @@ static inline int myth_uncond_wait_body(myth_uncond_t * u) {
 
 static inline int myth_uncond_signal_body(myth_uncond_t * u) {
   myth_running_env_t env = myth_get_current_env();
+  MYTH_VERIF_POINT(75);
   myth_thread_t to_wake = u->th;
+  MYTH_VERIF_EV2("UcLd", VUC(u), VD(to_wake));
   while (!to_wake) {
+    MYTH_VERIF_SPIN(46);
     to_wake = u->th;
+    MYTH_VERIF_EV2("UcLd", VUC(u), VD(to_wake));
   }
   to_wake->env = env;
+  MYTH_VERIF_POINT(76);
+  MYTH_VERIF_EV1("UcClr", VUC(u));
   u->th = 0;
   myth_queue_push(&env->runnable_q, to_wake);
   return 0;
